@@ -36,7 +36,7 @@ impl Check for C17 {
     fn runs(&self, tier: Tier) -> u64 {
         match tier {
             Tier::Quick => 100_000,
-            Tier::Thorough => 24 * 65_536 + 3_000_000,
+            Tier::Thorough => 24 * 65_536 + 8_000_000,
         }
     }
     fn generate(&self, rng: &mut Rng, index: u64, tier: Tier) -> Scenario {
@@ -148,18 +148,6 @@ impl Check for C17 {
             st.hit("skip:stream_shorter_than_declared");
             return out;
         }
-        // precondition: the complete header is accepted (else this is not "a truncated v2 header")
-        match guard(|| v2::Header::try_from(&stream[..total]).map(|h| h.len())) {
-            Ok(Ok(n)) if n == total => {}
-            Ok(_) => {
-                st.hit("skip:full_header_not_accepted");
-                return out;
-            }
-            Err(_) => {
-                st.hit("skip:panic");
-                return out;
-            }
-        }
         st.distinct(fnv(&stream[..16]) ^ fnv(&(sc.events.len() as u64).to_le_bytes()));
         if l == 65535 {
             st.hit("probe:L_65535");
@@ -169,6 +157,7 @@ impl Check for C17 {
         let mut caps = sc.events.iter();
         let mut last_was_partial_exact = false;
         let mut last_was_short = false;
+        let mut last_was_short_after_partial = false;
         let mut steps = 0u64;
         loop {
             steps += 1;
@@ -192,7 +181,12 @@ impl Check for C17 {
                 15 => st.hit("probe:cut_15"),
                 _ => {}
             }
-            // ---- oracle: arithmetic on the stream
+            // ---- oracle: arithmetic on the stream, exactly as far as the property goes:
+            //  * an Incomplete / Partial result must carry exact numbers;
+            //  * after a Partial, supplying exactly the missing bytes must give Ok, and
+            //    supplying fewer must give Partial with the updated counts.
+            // A truncated header that is reported as something else than incomplete without a
+            // preceding Partial is not this property's business (C05 / C02) and is only counted.
             let expected: Result<usize, E2> = if n < 16 {
                 Err(E2::Incomplete(n))
             } else if n < total {
@@ -200,20 +194,35 @@ impl Check for C17 {
             } else {
                 Ok(total)
             };
-            if r != expected {
-                let clause = if n < 16 {
-                    "wrong_count_before_fixed_part"
-                } else if n < total {
-                    if last_was_short {
-                        "wrong_counts_after_short_read"
-                    } else {
-                        "wrong_partial_counts"
+            let carries_counts = matches!(r, Err(E2::Incomplete(_)) | Err(E2::Partial(..)));
+            let after_partial = last_was_partial_exact || last_was_short_after_partial;
+            let mut clause: Option<&'static str> = None;
+            if n < total {
+                if carries_counts {
+                    if r != expected {
+                        clause = Some(if n < 16 {
+                            "wrong_count_before_fixed_part"
+                        } else if last_was_short_after_partial {
+                            "wrong_counts_after_short_read"
+                        } else {
+                            "wrong_partial_counts"
+                        });
                     }
-                } else if last_was_partial_exact {
-                    "not_ok_after_exact_fill"
+                } else if after_partial {
+                    clause = Some("not_incomplete_after_supplying_fewer_bytes");
                 } else {
-                    "not_ok_when_complete"
-                };
+                    st.hit("skip:truncated_but_not_reported_incomplete");
+                    return out;
+                }
+            } else if last_was_partial_exact {
+                if r.is_err() {
+                    clause = Some("not_ok_after_exact_fill");
+                }
+            } else if r.is_err() {
+                st.hit("skip:complete_header_rejected_without_prior_partial");
+                return out;
+            }
+            if let Some(clause) = clause {
                 out.push(viol(
                     "C17",
                     clause,
@@ -226,6 +235,9 @@ impl Check for C17 {
                     ),
                 ));
                 return out;
+            }
+            if n >= 16 && n < total {
+                st.hit("probe:partial_counts_judged");
             }
             if n >= total {
                 if last_was_partial_exact {
@@ -262,16 +274,19 @@ impl Check for C17 {
                 break;
             }
             st.hit("fault:reads");
+            let from_partial = matches!(r, Err(E2::Partial(..)));
             if give < want {
                 st.hit("fault:short_read");
                 last_was_short = true;
+                last_was_short_after_partial = from_partial;
                 last_was_partial_exact = false;
             } else {
-                if last_was_short && n >= 16 {
+                if last_was_short && from_partial {
                     st.hit("probe:short_read_then_fill");
                 }
-                last_was_partial_exact = n >= 16;
+                last_was_partial_exact = from_partial;
                 last_was_short = false;
+                last_was_short_after_partial = false;
             }
             buf.extend_from_slice(&stream[pos..pos + give]);
             pos += give;
@@ -281,6 +296,7 @@ impl Check for C17 {
 
     fn required_probes(&self, _tier: Tier) -> Vec<&'static str> {
         vec![
+            "probe:partial_counts_judged",
             "probe:partial_then_exact_fill",
             "probe:short_read_then_fill",
             "probe:L_65535",
@@ -292,7 +308,7 @@ impl Check for C17 {
         ]
     }
     fn rule(&self) -> String {
-        "one run = one v2 header (one of the 24 valid control pairs, a declared length L >= the family size, payload and trailer of seeded noise) read by a receiver that asks for exactly what the last error said is missing (16 - n before the fixed part, need - have after), against a transport that answers in full or with a short read. Systematic runs first (quick: 24 pairs x 64 lengths incl. every boundary; thorough: 24 pairs x all 65536 lengths, clamped to the family minimum), every second one with one byte per read (every cut point) when L <= 512. At every receiver state the result must equal Incomplete(n) / Partial(n-16, L) / Ok(16+L). Distinct by (fixed part, schedule length); non-trivial = the complete header is accepted by the tree.".into()
+        "one run = one v2 header (one of the 24 valid control pairs, a declared length L >= the family size, payload and trailer of seeded noise) read by a receiver that asks for exactly what the last error said is missing (16 - n before the fixed part, need - have after), against a transport that answers in full or with a short read. Systematic runs first (quick: 24 pairs x 64 lengths incl. every boundary; thorough: 24 pairs x all 65536 lengths, clamped to the family minimum), every second one with one byte per read (every cut point) when L <= 512. At every receiver state an Incomplete / Partial result must carry exactly n / (n-16, L); after a Partial, an exact fill must give Ok and a short fill must give Partial with the updated counts. Distinct by (fixed part, schedule length); every run is non-trivial.".into()
     }
     fn real_vs_stub(&self) -> serde_json::Value {
         json!({
